@@ -44,10 +44,11 @@ func genColType(rng *rand.Rand) ColType {
 	case 1:
 		return ColType{Kind: "opt", Key: k, Min: 0, Max: 1}
 	case 2:
-		return ColType{Kind: "set", Key: k, Min: 0, Max: -1}
+		// unlimited, and finite bounds above one (real schemas have sets of up to 4096 elements)
+		return ColType{Kind: "set", Key: k, Min: 0, Max: []int{-1, -1, 5, 4096}[rng.Intn(4)]}
 	default:
 		v := atomicTypes[rng.Intn(len(atomicTypes))]
-		return ColType{Kind: "map", Key: k, Val: v, Min: 0, Max: -1}
+		return ColType{Kind: "map", Key: k, Val: v, Min: 0, Max: []int{-1, -1, 5}[rng.Intn(3)]}
 	}
 }
 
